@@ -462,7 +462,7 @@ func (s *transactionStore) List(ctx context.Context) ([]configapi.Transaction, e
 		for {
 			entry, err := stream.Next()
 			if err == io.EOF {
-				return transactions, nil
+				break
 			}
 			if err != nil {
 				return nil, err
